@@ -11,7 +11,7 @@ import (
 	"golang.org/x/perf/internal/verifh/hx"
 )
 
-var alphabet = []byte{'/', '=', '-', '0', '7', 'a', 0xC3, 0xA9}
+var alphabet = []byte{'/', '=', '-', '0', '7', 'a', 0xC3, 0xA9, '+'}
 
 var keys = []string{".name", ".fullname", "/gomaxprocs", "/a", "/", "/a=", "/0", "/-7", "k", "missing", "", ".config", ".unit"}
 
@@ -97,6 +97,56 @@ func runCase(id int, name []byte, cfg [][2]string) {
 	hx.Printf("sobs %d %s fx=%s\n", id, line, strings.Join(fx, ","))
 }
 
+// cfgCase exercises configuration built through the API (SetConfig incl. deletion, Clone, edits
+// of clones and of the original afterwards): a plain key must extract the configured value.
+// ops: S<k>=<v> (set on the current result; empty v deletes), C (clone, the clone becomes
+// current), B (switch back to the previously current result).
+func cfgCase(id int, ops []string) {
+	cur := &benchfmt.Result{Name: benchfmt.Name("X")}
+	all := []*benchfmt.Result{cur}
+	var stack []*benchfmt.Result
+	for _, op := range ops {
+		switch {
+		case op == "C":
+			stack = append(stack, cur)
+			cur = cur.Clone()
+			all = append(all, cur)
+		case op == "B":
+			if len(stack) > 0 {
+				cur = stack[len(stack)-1]
+				stack = stack[:len(stack)-1]
+			}
+		default:
+			kv := strings.SplitN(op[1:], "=", 2)
+			cur.SetConfig(kv[0], kv[1])
+		}
+	}
+	var enc []string
+	for _, op := range ops {
+		enc = append(enc, hx.HexS(op))
+	}
+	hx.Printf("case %d kind=cfg ops=%s tag=cfgops\n", id, strings.Join(enc, ","))
+	var outs []string
+	for _, r := range all {
+		var kvs []string
+		for _, k := range []string{"a", "b", "c", "k"} {
+			v, err := benchproc.VerifExtract(k, r)
+			if err != nil {
+				kvs = append(kvs, errTag(err))
+			} else if r.GetConfig(k) != string(v) {
+				kvs = append(kvs, "!getconfig-differs")
+			} else {
+				kvs = append(kvs, hx.Hex(v))
+			}
+		}
+		outs = append(outs, strings.Join(kvs, ":"))
+	}
+	hx.Printf("obs %d maps=%s\n", id, strings.Join(outs, ","))
+	hx.Printf("sobs %d maps=%s\n", id, strings.Join(outs, ","))
+}
+
+var cfgVals = []string{"", "x", "xy", "abc", "abcdef", "0123456789abcdef", "v w", "é"}
+
 func main() {
 	defer hx.Flush()
 	if lines := hx.ReplayLines(); lines != nil {
@@ -133,6 +183,23 @@ func main() {
 		}
 	}
 	rec(nil)
+	// configuration histories through the API
+	rc := hx.NewRand(55)
+	for i := 0; i < hx.N(4000, 60000); i++ {
+		var ops []string
+		for j := 2 + rc.Intn(10); j > 0; j-- {
+			switch rc.Intn(6) {
+			case 0:
+				ops = append(ops, "C")
+			case 1:
+				ops = append(ops, "B")
+			default:
+				ops = append(ops, "S"+hx.Pick(rc, []string{"a", "b", "c", "k"})+"="+hx.Pick(rc, cfgVals))
+			}
+		}
+		cfgCase(id, ops)
+		id++
+	}
 	// random longer names, biased to realistic shapes
 	words := []string{"Foo", "a", "a=1", "a=", "=", "gomaxprocs=4", "b=x-2", "0", "-7", "", "é", "a=b=c", "/"}
 	n := hx.N(20000, 400000)
@@ -153,7 +220,8 @@ func main() {
 			case 0:
 				name = append(name, "-8"...)
 			case 1:
-				name = append(name, hx.Pick(r, []string{"-", "-x", "-12-", "--3", "-007"})...)
+				name = append(name, hx.Pick(r, []string{"-", "-x", "-12-", "--3", "-007", "-+4", "-+16", "- 4", "-0x10", "-1_0",
+					"-9223372036854775807", "-9223372036854775808", "-18446744073709551616", "-４", "-4 ", "-4\n"})...)
 			}
 		}
 		runCase(id, name, cfgs[r.Intn(len(cfgs))])
